@@ -6,7 +6,7 @@
    router, every size limit and every behaviour of the status / codec libraries. *)
 From Coq Require Import Strings.String Strings.Byte.
 From Coq Require Import List Arith NArith ZArith Bool Lia.
-From Verif Require Import Base.Bytes Base.Val Model.Auth Proofs.AuthProofs Corr.C16.
+From Verif Require Import Base.Bytes Base.Val Model.Auth Model.AuthPool Proofs.AuthProofs Proofs.AuthPoolProofs Corr.C16.
 Import ListNotations.
 
 Section AllParameters.
@@ -110,6 +110,71 @@ Print Assumptions C16_rejected_closed_and_unindexed.
 Print Assumptions C16_listed_only_accepted_and_open.
 Print Assumptions C16_finished_after_eof.
 Print Assumptions C16_pipelined_frames_processed_iff_accepted.
+
+(* ---- the verdict is a function of the connection's OWN auth frame (Model/AuthPool.v) ----
+   Several connections are in their accept phase at once; their reads, and every other read or Pack
+   of the process, take their byte buffer from one pool, so the buffer a frame was read into is
+   overwritten by later reads while a checker still works between RecvOnce and its comparison.
+   The stores that exist (string(data), copy into a pointer-to-[]byte, encoding/json) give the receiver
+   bytes of its own. *)
+
+(* For EVERY schedule of receive / other-read / verdict steps of any number of connections and every
+   assignment of pooled buffers to the reads: each verdict sees exactly the info of that connection's
+   own last auth frame. *)
+Theorem C16_checker_holds_a_copy_of_its_own_info : forall evs,
+  plog (prun false evs) = slog (srun evs).
+Proof. exact prun_copy_spec. Qed.
+Print Assumptions C16_checker_holds_a_copy_of_its_own_info.
+
+(* Two schedules in which connection c takes the same steps give c the same verdicts, whatever the
+   other connections send, whenever they send it and whichever buffers the pool hands out. *)
+Theorem C16_verdict_depends_on_own_frame_only : forall c evs1 evs2,
+  filter (about c) evs1 = filter (about c) evs2 ->
+  log_of c (plog (prun false evs1)) = log_of c (plog (prun false evs2)).
+Proof. exact copy_verdicts_own_steps_only. Qed.
+Print Assumptions C16_verdict_depends_on_own_frame_only.
+
+(* On the accept machine: a checker parked between RecvOnce and its verdict while ANY steps of other
+   connections happen behaves exactly as the unparked checker - so every theorem above holds for
+   it, and it accepts iff its own frame carried what the verdict function accepts. *)
+Theorem C16_parked_checker_same_as_unparked :
+  forall status_code info_dec route_call route_push limit ck others ins,
+  Forall (fun e => about 0 e = false) others ->
+  Auth.run status_code info_dec route_call route_push limit (gated false others ck) ins
+  = Auth.run status_code info_dec route_call route_push limit ck ins.
+Proof. exact gated_copy_run. Qed.
+Print Assumptions C16_parked_checker_same_as_unparked.
+
+(* The zero-copy store (the receiver holds a view into the pooled buffer) is refuted: with the
+   same own steps the verdict of a connection changes with what another connection sends ... *)
+Theorem C16_aliased_info_refuted :
+  exists evs1 evs2 c,
+    filter (about c) evs1 = filter (about c) evs2 /\
+    log_of c (plog (prun true evs1)) = [Some (str "wrong")] /\
+    log_of c (plog (prun true evs2)) = [Some (str "right")].
+Proof. exact alias_verdict_depends_on_others. Qed.
+Print Assumptions C16_aliased_info_refuted.
+
+(* ... and on the machine a connection that sent a wrong token is accepted and its pipelined CALL
+   handled once another connection's right token has been read into the recycled buffer. *)
+Theorem C16_parked_checker_aliased_refuted :
+  exists others ins,
+    Forall (fun e => about 0 e = false) others /\
+    let ck := mkChecker 1 false (fun i => bytes_eqb i (str "r")) 0 None None 0 in
+    let run' := Auth.run (fun _ => 0%Z) (fun _ b => Some b) (fun _ => true) (fun _ => true) 65536 in
+    accepted (run' ck ins) = false /\
+    accepted (run' (gated true others ck) ins) = true /\
+    In (EvHandler true 72) (trace (run' (gated true others ck) ins)).
+Proof. exact gated_alias_refuted. Qed.
+Print Assumptions C16_parked_checker_aliased_refuted.
+
+(* non-vacuity: three connections, one buffer for every read, a read-loop frame in between *)
+Example C16_example_pool :
+  let evs := [PRecv 0 0 (str "hdr:wrong") 4 5; PRecv 1 0 (str "hdr:right") 4 5; PRead 0 (str "xxxxxxxxxxxx");
+              PVerdict 0; PRecv 2 0 (str "h:") 2 0; PVerdict 1; PVerdict 2] in
+  plog (prun false evs) = [(0%nat, Some (str "wrong")); (1%nat, Some (str "right")); (2%nat, Some [])] /\
+  plog (prun true evs) = [(0%nat, Some (str "xxxxx")); (1%nat, Some (str "xxxxx")); (2%nat, Some [])].
+Proof. vm_compute. auto. Qed.
 
 (* Client side (authBearerPlugin.PostDial): the dial succeeds only on an AUTH_REPLY frame with
    OK status, and the request is sent at most once. *)
